@@ -222,6 +222,10 @@ func c14Err(err error) string {
 		{"self balance must be a positive multiple", "push-out"},
 		{"invalid bid amount", "bid-amt"},
 		{"invalid min units match", "min-units"},
+		{"must match sidecar ticket's lease duration", "bid-lease"},
+		{"must match sidecar ticket's push amount", "bid-push"},
+		{"invalid unannounced channel flag", "bid-unannounced"},
+		{"invalid zero conf channel flag", "bid-zeroconf"},
 		{"already exists", "exists"},
 		{"error looking up sidecar order", "unknown"},
 	} {
@@ -641,13 +645,26 @@ func (e *c14Env) provider(r *Run, rng *rand.Rand) {
 	bidAmt := t.Offer.Capacity
 	minUnits := uint64(b.Capacity / 100000)
 	acctKey, locKey := b.SignKey, b.SignKey
+	// the bid repeats the channel parameters of the offer (CheckOfferMatchesBid)
+	if rng.Intn(6) == 0 {
+		b.Lease = 0
+		t.Offer.LeaseDurationBlocks = 0
+		t.Offer.SigOfferDigest = nil
+		_ = sidecar.SignOffer(e.ctx, t, loc, e.signer)
+	}
+	bidLease, bidUnann, bidZC := b.Lease, b.Unannounced, b.ZeroConf
+	if b.Lease == 0 {
+		bidLease = uint32(1 + rng.Intn(5000))
+	}
+	bidSCB := int64(-1 << 62) // "same as the offer's push amount", resolved below
 	var nonce [32]byte
 	rng.Read(nonce[:])
 	dev := "none"
 	if rng.Intn(10) < 7 {
 		devs := []string{"state", "recipient-nil", "recipient-nokey", "offer-unsigned", "offer-badsig",
 			"offer-changed", "not-ours", "outbound", "market-other", "cap-zero", "cap-odd", "push-over",
-			"bid-amt", "min-units", "min-units-wrap", "version", "order-present", "zero-nonce", "signer-other"}
+			"bid-amt", "min-units", "min-units-wrap", "version", "order-present", "zero-nonce", "signer-other",
+			"bid-lease", "bid-push", "bid-unannounced", "bid-zeroconf"}
 		dev = devs[rng.Intn(len(devs))]
 	}
 	switch dev {
@@ -710,13 +727,28 @@ func (e *c14Env) provider(r *Run, rng *rand.Rand) {
 		nonce = [32]byte{}
 	case "signer-other":
 		locKey = 1 + b.SignKey%c14NKeys
+	case "bid-lease":
+		if t.Offer.LeaseDurationBlocks != 0 {
+			bidLease += 1 + uint32(rng.Intn(2016))
+		}
+	case "bid-push":
+		bidSCB = int64(t.Offer.PushAmt) + 1 + int64(rng.Intn(1000))
+	case "bid-unannounced":
+		bidUnann = !bidUnann
+	case "bid-zeroconf":
+		bidZC = !bidZC
+	}
+	if bidSCB == int64(-1<<62) {
+		bidSCB = int64(t.Offer.PushAmt)
 	}
 	kit := order.NewKit(order.Nonce(nonce))
 	kit.AuctionType = auctionType
 	kit.Amt = bidAmt
 	kit.MinUnitsMatch = order.SupplyUnit(minUnits)
 	kit.Version = order.VersionChannelType
-	bid := &order.Bid{Kit: *kit}
+	kit.LeaseDuration = bidLease
+	bid := &order.Bid{Kit: *kit, SelfChanBalance: btcutil.Amount(bidSCB),
+		UnannouncedChannel: bidUnann, ZeroConfChannel: bidZC}
 	acct := &account.Account{TraderKey: &keychain.KeyDescriptor{
 		KeyLocator: keychain.KeyLocator{Family: 220, Index: uint32(locKey)},
 		PubKey:     e.keys.pub[acctKey],
@@ -728,8 +760,9 @@ func (e *c14Env) provider(r *Run, rng *rand.Rand) {
 		return order.VerifDigestValidateAndSignTicket(e.ctx, cfg, t, bid, acct)
 	})
 	out := res + " " + e.tok(t)
-	r.Emit(fmt.Sprintf("C14 provider %s %d %d %d %s %d %d", inTok, uint32(auctionType),
-		int64(bidAmt), minUnits, c14Hex(nonce[:]), acctKey, locKey), out)
+	r.Emit(fmt.Sprintf("C14 provider %s %d %d %d %s %d %d %d %d %s %s", inTok, uint32(auctionType),
+		int64(bidAmt), minUnits, c14Hex(nonce[:]), acctKey, locKey, bidLease, bidSCB, c14B(bidUnann),
+		c14B(bidZC)), out)
 	r.Evaluations++
 	r.Distinct("provider" + inTok + dev)
 	r.Count("provider/dev/" + dev)
